@@ -89,7 +89,9 @@ class Ctx:
 
     def executor(self, **kw):
         kw.setdefault("models", MODELS.MODELS)
-        return SYM.Executor(self.bodies, self.consts, self.enums, **kw)
+        ex = SYM.Executor(self.bodies, self.consts, self.enums, **kw)
+        ex.type_modules = dict(rustdefs.TYPE_MODULES)
+        return ex
 
     def field_index(self, struct, field):
         for i, (f, t) in enumerate(self.structs[struct]):
